@@ -187,6 +187,7 @@ impl<'a> Rec<'a> {
             Ok(l @ Searcher::Low(_)) => (true, String::new(), c.repr, l.prefilter_debug()),
             Err(e) => (false, e.clone(), "", String::new()),
         };
+        set_case(&serde_json::to_string(c).unwrap_or_default());
         let line = out.put(
             shard,
             &json!({"ev":"ctx","ctx":c,"built":built,"err":err,"kind":kind,"pf":pf,
@@ -1399,6 +1400,7 @@ pub fn run(out_prefix: &str, shards: usize, family: &str, seed: u64, scale: usiz
                                 }
                                 if mk == "std" {
                                     ev_work_overlap(r, s, &c, h, (0, h.len()), false);
+                                    ev_work_overlap(r, s, &c, h, (0, h.len()), true);
                                 }
                                 r.flush(h, (0, h.len()));
                             }
@@ -1424,6 +1426,9 @@ pub fn run(out_prefix: &str, shards: usize, family: &str, seed: u64, scale: usiz
                                     }
                                     if mk == "std" {
                                         ev_work_overlap(r, s, &c, h, sp, false);
+                                        if supported(&c, true) {
+                                            ev_work_overlap(r, s, &c, h, sp, true);
+                                        }
                                     }
                                     // long haystacks are not repeated in the trace: only the
                                     // span bounds matter for the work bound
